@@ -1,5 +1,6 @@
 import MimeModel.Props.C03
 import MimeModel.Gen.Tree
+import MimeModel.Spec.All
 /-
   C18 — tar detection tracks header checksum validity.
 
@@ -240,6 +241,14 @@ theorem tree_facts :
     (Gen.builtin.flatten.filter (fun i => i.mime == mimeTar)).length = 1 ∧
     Gen.builtin.children.any (fun c => c.info.name == "tar" && decide (c.info.det = .custom .tar) &&
       c.children.isEmpty && c.info.mime == mimeTar) = true := by
+  constructor <;> decide
+
+/-- regenerated fact: the root formats consulted before tar are exactly the ones the property
+    lists ("tar sits after exe/elf/ar and before the remaining root formats"); the oracle excuses a
+    conforming archive only when one of these accepts it -/
+theorem tar_priority :
+    (Gen.builtin.children.map (·.info.name)).takeWhile (· != "tar") = Spec.tarOutrankers ∧
+    ((Gen.builtin.children.map (·.info.name)).dropWhile (· != "tar")).take 2 = ["tar", "xar"] := by
   constructor <;> decide
 
 /- non-vacuity: an all-zero block with the right checksum (8 spaces = 256 = 000400) conforms -/
